@@ -931,7 +931,8 @@ def check_scenarios(ctx, scs):
         traces = [rec(sc) for sc in by[kind]]
         t1 = time.time()
         all_traces[kind] = traces
-        verdicts = ctx.validate(mod, traces, chunk=chunk, name=kind)
+        # at most 8 TLC processes (one worker each) at a time
+        verdicts = ctx.validate(mod, traces, chunk=max(chunk, -(-len(traces) // 8)), name=kind)
         ctx.notes.append("%s: %d traces recorded in %.1fs, validated in %.1fs" % (kind, len(traces), t1 - t0, time.time() - t1))
         for sc, tr, v in zip(by[kind], traces, verdicts):
             evs = tr["events"]
@@ -1038,7 +1039,7 @@ def design_runs(ctx):
     runs.append(("BslRound", "br_neg_simfirst", BR_CFG % (4, 2, 2, "TRUE", "FALSE", invs(["NoSimForRejected"])), False, None))
     if not ctx.quick:
         runs.append(("MC_BslMh", "mh_dim2", MH_CFG % (2, "TRUE", "TRUE", invs(MH_INVS)), True, mh_act))
-        runs.append(("MC_SynLik", "sl_d1_big", sl(6, 1, "0, 1, 2, 4", "0, 3, 6", "1, 2", 0, True, SL_INVS), True, ["Whiten"]))
+        runs.append(("MC_SynLik", "sl_d1_big", sl(6, 1, "0, 1, 2, 4", "0, 3", "1, 2", 0, True, SL_INVS), True, ["Whiten"]))
         runs.append(("MC_SynLik", "sl_d2_y", sl(5, 2, "0, 1", "0, 3", "1", 0, True, SL_INVS), True, ["Whiten"]))
         runs.append(("MC_SynLik", "sl_d2_n6", sl(6, 2, "0, 1", "4", "1", 0, True, SL_INVS), True, ["Whiten"]))
         runs.append(("BslRound", "br_n6", BR_CFG % (6, 3, 3, "TRUE", "TRUE", invs(BR_INVS, "Terminates")), True, br_act))
